@@ -40,6 +40,20 @@ TRawSet == /\ Ev.ev = "rawset" /\ RawSetP(Ev.utype, Ev.units)
 TRawUnset == /\ Ev.ev = "rawunset" /\ RawUnsetOK(Ev.utype) /\ RawUnsetP(Ev.utype)
              /\ UNCHANGED <<ctx, euCount, euFlag, frames, tainted>> /\ Keep
 
+\* Manager.set_current_units with unknown units: the saved slot has already
+\* been overwritten when the method raises; the active units stay
+TRawSetFail == /\ Ev.ev = "rawset_fail"
+               /\ saved' = [x \in {Ev.utype} |-> cur[Ev.utype]]
+               /\ UNCHANGED <<cur, ctx, euCount, euFlag, frames, tainted>> /\ Keep
+\* unit types outside the projection (frequency, temperature, ...): they
+\* share the single saved slot with energy and length
+TRawSetOther == /\ Ev.ev = "rawset_other" /\ Ev.utype \notin DOMAIN cur
+                /\ DOMAIN saved' \subseteq {Ev.utype}
+                /\ UNCHANGED <<cur, ctx, euCount, euFlag, frames, tainted>> /\ Keep
+TRawUnsetOther == /\ Ev.ev = "rawunset_other" /\ Ev.utype \in DOMAIN saved
+                  /\ UNCHANGED <<cur, saved, ctx, euCount, euFlag, frames, tainted>>
+                  /\ Keep
+
 TLibBegin ==
   /\ Ev.ev = "lib_begin"
   /\ frames' = Append(frames, [name |-> Ev.name, pc |-> 0, entry |-> cur,
@@ -60,6 +74,9 @@ TraceNext ==
   /\ \/ (TEnterEU /\ Logged) \/ (TExitEU /\ Logged)
      \/ (TEnterLen /\ Logged) \/ (TExitLen /\ Logged)
      \/ (TRawSet /\ Logged) \/ (TRawUnset /\ Logged)
+     \/ (TRawSetFail /\ Logged)
+     \/ (Ev.ev = "rawset_other" /\ Logged /\ TRawSetOther)
+     \/ (Ev.ev = "rawunset_other" /\ Logged /\ TRawUnsetOther)
      \/ TLibBegin \/ TLibEnd
 
 TraceSpec == TraceInit /\ [][TraceNext]_tvars
